@@ -625,9 +625,10 @@ func (a *analysis) run() {
 	rel[t0] = true
 	relByQ[sInit] = append(relByQ[sInit], t0)
 
-	for len(work) > 0 {
-		t := work[len(work)-1]
-		work = work[:len(work)-1]
+	// breadth first: the first derivation recorded for a transition is a shortest one,
+	// which keeps the witnesses in reports short
+	for head := 0; head < len(work); head++ {
+		t := work[head]
 		if rel[t] {
 			continue
 		}
